@@ -30,7 +30,22 @@ THEOREMS = ["PyOak.Legacy.C19." + t for t in [
     "tFields_local", "wfFor_of", "replace_step_local", "visitBody_local", "visitGo_local", "duplicate_clone_reg",
     "step_dup_clone_reg", "tvisit_fail_in_visit_frame", "fail_frame_tvisit_in_visit", "fail_frame_tvisit_in_visit_exact",
 ]]
+# AUDIT #3 (Props/C19Rejected.lean, C19RejectedBridge.lean): the invariant survives a rejected step, one uniform
+# frame theorem, histories that mix accepted and rejected operations
+THEOREMS += ["PyOak.Legacy.C19." + t for t in [
+    "inv_of_frame", "construct_fail_garbage", "construct_fail_inv", "replace_fail_garbage",
+    "rwith_rollback_root_all", "rwith_rollback_parent_all", "fail_frameAll_rwith",
+    "rejected_step", "inv_step_rejected", "fail_frame_step", "fail_frame_step_nodup", "fail_frame_step_G",
+    "inv_step_any", "inv_run_mixed", "inv_run_mixed_init", "mixedRun_of_goodRun", "frame_run_rejected",
+    # Props/C19RwithErr.lean: the error classes of replace_with under Inv (`internal` unreachable)
+    "rwith_field_found", "rwith_err_kind_partial", "rwith_not_internal", "step_rwith_err_kind_partial",
+]]
 PARTIAL = [
+    "rejected_step / inv_step_rejected / fail_frame_step / inv_run_mixed / frame_run_rejected cover every operation and "
+    "every error except `hang` (the call does not return); for replace_with the covered rejection is "
+    "ASTNodeReplaceWithError; rwith_err_kind_partial proves that under Inv its only other exits are `hang` and a registry / "
+    "parent collision raised by the re-attachment of the receiver inside the roll-back (`internal` is unreachable); that "
+    "this re-attachment never collides is NOT proved (rwith_err_kind, open)",
     "fail_frame_dup is stated without the garbage collection: it proves that a rejected duplicate leaves every "
     "pre-existing record and registry entry untouched and that any additional entry belongs to an object created by the "
     "rejected call; that these temporaries are gone when the call returns is the weak registry (gcNew in "
